@@ -385,7 +385,7 @@ Definition perm_predicted (i : sinput) (rows : list perm_row) (m : sobs) (r : pe
     if own_ws_path (pr_path r) && negb (o_dry_run (i_opts i)) then pr_after r
     else match file_at (pr_path r) (p_ws (ob_dst m)) with
          | Some (_, mt) => if Z.eqb mt NOW then perm_before rows false (src_path_of i (pr_path r)) else pr_before r
-         | None => pr_after r       (* no file predicted there: the tree comparison speaks *)
+         | None => PERM_DEFAULT     (* no file predicted there (a path without a file has the default bits) *)
          end
   else pr_before r.
 
